@@ -222,11 +222,12 @@ Qed.
 End act.
 
 (* with the build function of Discover.activate (a program run by Space.exec) this is Discover.activate *)
+Definition run_build (build : list stmt) (hp : hps) : hps * list event * bool := exec 2000 hp build [].
 Lemma activate_h_fst draw build allow tune fuel : ∀ osp hp never once k builds hist,
-  (activate_h draw (λ hp, exec 2000 hp build []) allow tune fuel osp hp never once k builds hist).1
+  (activate_h draw (run_build build) allow tune fuel osp hp never once k builds hist).1
   = activate draw build allow tune fuel osp hp never once k builds.
 Proof.
-  induction fuel as [|fuel IH]; intros; cbn [activate_h activate]; [done|].
+  unfold run_build. induction fuel as [|fuel IH]; intros; cbn [activate_h activate]; [done|].
   destruct (exec 2000 hp build []) as [[hp' lg] raised]. destruct raised; [done|].
   destruct (update_space allow tune osp hp') as [osp'|]; [|done].
   destruct (fold_left note_active (s_active hp') (never, once)) as [never1 once1].
@@ -234,3 +235,103 @@ Proof.
   destruct never2 as [|chain rest]; [done|].
   destruct (ensure_active draw _ k) as [hp1 k']. apply IH.
 Qed.
+
+(* ---- (2) with allow_new_entries = tune_new_entries = True every entry any build registered is in the oracle's space ---- *)
+Section space.
+Lemma register_empty_stack s h ow : s_conds s = [] →
+  ∃ s' v, register s h ow = Ok (s', v) ∧ s_space s' = s_space s ++ [h] ∧ s_conds s' = [].
+Proof.
+  intros Hc. unfold register. rewrite Hc. cbn [existsb].
+  match goal with |- context [if is_active ?S h then _ else _] => destruct (is_active S h) end; eexists _, _; split; try reflexivity; cbn; done.
+Qed.
+Lemma exists_mono s s' l n c : s_space s' = s_space s ++ l → exists_ s n c = true → exists_ s' n c = true.
+Proof. unfold exists_. intros ->. rewrite existsb_app. intros ->. done. Qed.
+Lemma exists_new s s' h : s_space s' = s_space s ++ [h] → exists_ s' (h_name h) (h_conds h) = true.
+Proof.
+  unfold exists_. intros ->. rewrite existsb_app. apply orb_true_iff. right. cbn.
+  rewrite bool_decide_eq_true_2 by done. by rewrite conds_eqb_refl.
+Qed.
+
+Lemma merge_list_spec l : ∀ s, s_conds s = [] →
+  s_conds (merge_list s l) = [] ∧ (∀ n c, exists_ s n c = true → exists_ (merge_list s l) n c = true) ∧
+  (∀ h, h ∈ l → exists_ (merge_list s l) (h_name h) (h_conds h) = true).
+Proof.
+  induction l as [|h r IH]; intros s Hc; cbn [merge_list fold_left].
+  - split; [done|]. split; [done|]. intros h Hh. by apply elem_of_nil in Hh.
+  - destruct (register_empty_stack s h true Hc) as (s1 & v & Hr & Hs & Hc1). rewrite Hr.
+    destruct (IH s1 Hc1) as (I1 & I2 & I3). fold (merge_list s1 r). split; [done|]. split.
+    + intros n c Hn. apply I2. by eapply exists_mono.
+    + intros x Hx. apply elem_of_cons in Hx as [->|Hx]; [|by apply I3]. apply I2. by eapply exists_new.
+Qed.
+
+Lemma update_space_covers osp hp' osp1 : s_conds osp = [] → update_space true true osp hp' = UsOk osp1 →
+  s_conds osp1 = [] ∧ (∀ n c, exists_ osp n c = true → exists_ osp1 n c = true) ∧
+  (∀ e, e ∈ s_space hp' → exists_ osp1 (h_name e) (h_conds e) = true).
+Proof.
+  intros Hc. unfold update_space. cbn [negb andb]. intros [= <-].
+  set (new := filter _ (s_space hp')).
+  destruct (merge_list_spec new osp Hc) as (I1 & I2 & I3). split; [done|]. split; [done|].
+  intros e He. destruct (exists_ osp (h_name e) (h_conds e)) eqn:Ex; [by apply I2|].
+  apply I3. unfold new. apply elem_of_list_filter. split; [|done]. rewrite Ex. done.
+Qed.
+
+Variable draw : nat → hp → value.
+Variable B : hps → hps * list event * bool.
+
+Definition J2 (osp : hps) (hist : list hps) : Prop :=
+  s_conds osp = [] ∧ ∀ h e, h ∈ hist → e ∈ s_space h → exists_ osp (h_name e) (h_conds e) = true.
+
+Theorem activate_space fuel : ∀ osp hp never once k builds hist osp' k' b hist',
+  J2 osp hist → activate_h draw B true true fuel osp hp never once k builds hist = (ActDone osp' k' b, hist') → J2 osp' hist'.
+Proof.
+  induction fuel as [|fuel IH]; intros osp hp never once k builds hist osp' k' b hist' [Hc HJ] Hrun; cbn [activate_h] in Hrun; [done|].
+  destruct (B hp) as [[hp' lg] raised]. destruct raised; [done|].
+  destruct (update_space true true osp hp') as [osp1|] eqn:Eu; [|done].
+  destruct (update_space_covers osp hp' osp1 Hc Eu) as (U1 & U2 & U3).
+  assert (HJ1 : J2 osp1 (hist ++ [hp'])).
+  { split; [done|]. intros h e Hh He. apply elem_of_app in Hh as [Hh|Hh]; [apply U2; by eapply HJ|].
+    apply elem_of_list_singleton in Hh. subst. by apply U3. }
+  destruct (fold_left note_active (s_active hp') (never, once)) as [never1 once1].
+  destruct (fold_left note_inactive (s_inactive hp') (never1, once1)) as [never2 once2].
+  destruct never2 as [|chain rest].
+  - inversion Hrun; subst. done.
+  - destruct (ensure_active draw _ k) as [hp1 k1]. eapply IH; eauto.
+Qed.
+Lemma activate_h_length fuel : ∀ osp hp never once k builds hist0 r hist1,
+  activate_h draw B true true fuel osp hp never once k builds hist0 = (r, hist1) →
+  match r with ActDone _ _ b' => length hist1 + builds = b' + length hist0 | _ => True end.
+Proof.
+  induction fuel as [|fuel IH]; intros osp hp never once k builds hist0 r hist1 H; cbn [activate_h] in H; [by inversion H|].
+  destruct (B hp) as [[hp' lg] raised]. destruct raised; [by inversion H|].
+  destruct (update_space true true osp hp') as [osp1|]; [|by inversion H].
+  destruct (fold_left note_active (s_active hp') (never, once)) as [never1 once1].
+  destruct (fold_left note_inactive (s_inactive hp') (never1, once1)) as [never2 once2].
+  destruct never2 as [|chain rest].
+  - inversion H; subst. rewrite app_length. cbn. lia.
+  - destruct (ensure_active draw _ k) as [hp1 k1]. apply IH in H. destruct r; try done. rewrite app_length in H. cbn in H. lia.
+Qed.
+End space.
+
+(* ---- both, for _populate_initial_space as modelled (Discover.populate_initial) ---- *)
+Theorem discovery_partial_correctness draw build fuel osp osp' k' b :
+  s_conds osp = [] →
+  populate_initial draw build true true fuel osp = ActDone osp' k' b →
+  ∃ hist : list hps,
+    (* the containers after each of the b builds *)
+    length hist = b ∧
+    (* every conditional scope opened in any build was active in some build *)
+    (∀ h cs, h ∈ hist → cs ∈ s_active h ++ s_inactive h → ∃ h', h' ∈ hist ∧ scope_in cs (s_active h') = true) ∧
+    (* everything any build registered is in the oracle's search space *)
+    (∀ h e, h ∈ hist → e ∈ s_space h → exists_ osp' (h_name e) (h_conds e) = true).
+Proof.
+  intros Hc Hrun. unfold populate_initial in Hrun.
+  pose proof (activate_h_fst draw build true true fuel osp (copy_hps osp) [] [] 0 0 []) as Hf.
+  remember (activate_h draw (run_build build) true true fuel osp (copy_hps osp) [] [] 0 0 []) as res eqn:Eh.
+  destruct res as [r hist]. cbn [fst] in Hf. rewrite Hrun in Hf. subst r. symmetry in Eh.
+  exists hist. split; [|split].
+  - pose proof (activate_h_length draw (run_build build) fuel _ _ _ _ _ _ _ _ _ Eh) as Hlen. cbn in Hlen. lia.
+  - exact (discovery_activates_every_scope draw (run_build build) true true fuel osp osp' k' b hist Eh).
+  - pose proof (activate_space draw (run_build build) fuel osp (copy_hps osp) [] [] 0 0 [] osp' k' b hist) as H.
+    destruct H as [_ H]; [|exact Eh|exact H]. split; [done|]. intros h e Hh. by apply elem_of_nil in Hh.
+Qed.
+Print Assumptions discovery_partial_correctness.
